@@ -384,6 +384,19 @@ func runEntry(w *refgraph.World, call entryCall, cache spec.ResolutionCache, loa
 				return
 			}
 			out, err = spec.ResolveRefWithBase(root, &ref, opts)
+		case "metaresolve":
+			// resolve a whole built-in meta-schema, then work on the result as a caller would (it is the caller's)
+			u := builtinURLs[0]
+			if call.Ref == "draft4" {
+				u = builtinURLs[1]
+			}
+			ref := spec.MustCreateRef(u)
+			var s *spec.Schema
+			if s, err = spec.ResolveRefWithBase(nil, &ref, opts); err != nil {
+				return
+			}
+			err = spec.ExpandSchema(s, nil, nil) // expands in place: the caller's copy must be the caller's alone
+			out = s
 		case "meta":
 			var s *spec.Schema
 			if call.Ref == "draft4" {
@@ -463,7 +476,7 @@ func metaUnfold(out wire.V) string {
 
 func kindOfEntry(e string) string {
 	switch e {
-	case "meta":
+	case "meta", "metaresolve":
 		return "meta"
 	case "schemaWithBase", "schemaRoot", "resolve":
 		return "schema"
@@ -822,7 +835,7 @@ func runC16(c *Ctx) {
 				call.Path = nil
 			default:
 				w = single
-				call = entryCall{Entry: "meta", Ref: []string{"swagger", "draft4"}[c.Intn(2)]}
+				call = entryCall{Entry: []string{"meta", "metaresolve"}[c.Intn(2)], Ref: []string{"swagger", "draft4"}[c.Intn(2)]}
 			}
 			wj := worldJSON(w)
 			hc := histCall{World: wj, Call: call}
@@ -857,7 +870,7 @@ func runC16(c *Ctx) {
 				}
 				isoCache[string(key)] = alone
 			}
-			if msg, ok := sameOutcome(w, kindOfEntry(call.Entry), alone, got, g.Cyclic() || call.Entry == "meta"); !ok {
+			if msg, ok := sameOutcome(w, kindOfEntry(call.Entry), alone, got, g.Cyclic() || kindOfEntry(call.Entry) == "meta"); !ok {
 				c.Fail(Failure{Kind: "oracle", Sig: "C16:depends-on-history", What: fmt.Sprintf("call %d of history %d gives another outcome than the same call made alone in a fresh process: %s", step, h, msg), Case: cs})
 			}
 			if a, b := sortedSet(alone.Loads), sortedSet(got.Loads); fmt.Sprint(a) != fmt.Sprint(b) && !g.Cyclic() {
@@ -1022,6 +1035,53 @@ func runC17(c *Ctx) {
 			}
 			if len(c.Res.Samples) < 2 && len(ev) > 8 {
 				c.Sample(map[string]interface{}{"scenario": "B", "goroutines": n, "trace": wireEvents(ev, true, tids)})
+			}
+		}
+		// (B') the same with the package's own cache type shared between the goroutines (verif hook), many
+		// alternating lookups over several documents
+		{
+			var w *refgraph.World
+			for {
+				w = refgraph.Generate(c.Rng, refgraph.Options{Docs: 4, Defs: 3, Cycles: r%2 == 0, RefP: 0.8, Spellings: true})
+				if len(w.BuildGraph().Missing) == 0 && len(rootElements(w, "definitions", "schemaWithBase")) > 0 && len(w.Docs) > 1 {
+					break
+				}
+			}
+			cyclic := w.BuildGraph().Cyclic()
+			els := rootElements(w, "definitions", "schemaWithBase")
+			refs := make([]entryResult, len(els))
+			for i := range els {
+				refs[i] = runEntry(w, els[i], nil, tracedLoader(w, &tracer{}, nil))
+			}
+			shared := spec.VerifDefaultCache()
+			bad := make([]string, n)
+			var wg sync.WaitGroup
+			_, hang := timed(90*time.Second, func() {
+				for i := 0; i < n; i++ {
+					wg.Add(1)
+					go func(i int) {
+						defer wg.Done()
+						for k := 0; k < 8; k++ {
+							j := (i + k) % len(els)
+							got := runEntryInline(w, els[j], shared, loaderFor(w, nil, nil))
+							if msg, ok := sameOutcome(w, "schema", refs[j], got, cyclic); !ok {
+								bad[i] = msg
+							}
+						}
+					}(i)
+				}
+				wg.Wait()
+			})
+			c.Count(fmt.Sprint("B'", worldJSON(w), n), true)
+			cs := map[string]interface{}{"world": worldJSON(w), "goroutines": n, "scenario": "shared default cache"}
+			if hang {
+				c.Fail(Failure{Kind: "crash", Sig: "C17:deadlock", What: "concurrent expansions sharing the package's own cache type did not finish within 90 s", Case: cs})
+			}
+			for _, b := range bad {
+				if b != "" {
+					c.Fail(Failure{Kind: "oracle", Sig: "C17:concurrent-result-differs", What: "an expansion sharing a default-type cache with concurrent expansions of the same documents differs from its sequential result: " + b, Case: cs})
+					break
+				}
 			}
 		}
 		// (C) shared immutable document: encoders and pointer lookups
